@@ -19,6 +19,7 @@ RULE = ('case = one accepted generated document parsed with default attribution 
         'lies inside the parent; characters outside the parent unchanged) plus, for lists, the gap rule (old neighbours keep their gap; '
         'a new gap is an old gap of that list or the field default, never empty, never two commas). Non-trivial = the visible token '
         'sequence changed; distinct = hash(text, op log). Calls that raise are C19\'s and are only counted here.')
+RULE += (' Also (rounds 9-11): elements of the underlying list that the mutated view does not show keep identity and order after every view operation; forced deletions / discard / remove of a view run with a sibling inside; a document that cannot be read while the next operation is built, or whose tokens cannot be listed for the snapshot, is reported (document-unreadable-after-accepted-edits).')
 ASSUMPTIONS = ['"normally parsed document" = default parsing (attribution on), so every comment is owned and list gaps hold only separators',
                'for the form-changing setters the child is the documented dependent group (cost braces+components; payee/narration strings)']
 
